@@ -176,38 +176,38 @@ var c11frexp = Register("C11", "C11.frexp", func(a c11FrexpArgs) *Violation {
 })
 
 func genScaleExp(t *rapid.T) int {
-	switch rapid.IntRange(0, 10).Draw(t, "expKind") {
+	switch ir(t, 0, 10, "expKind") {
 	case 0, 1:
-		return rapid.IntRange(-7000, 7000).Draw(t, "exp")
+		return ir(t, -7000, 7000, "exp")
 	case 2, 8, 9:
-		return rapid.IntRange(ref.Emin-25, ref.Emin+20).Draw(t, "expLow")
+		return ir(t, ref.Emin-25, ref.Emin+20, "expLow")
 	case 3, 10:
-		return rapid.IntRange(ref.Emax-5, ref.Emax+45).Draw(t, "expHigh")
+		return ir(t, ref.Emax-5, ref.Emax+45, "expHigh")
 	case 4:
-		return []int{math.MinInt, math.MinInt + 1, math.MaxInt, math.MaxInt - 1, math.MinInt32, math.MaxInt32, -1 << 15, 1<<15 - 1, 1 << 15, 1 << 16, -(1 << 16), 1<<16 - 6176, 1<<16 + 6111}[rapid.IntRange(0, 12).Draw(t, "extreme")]
+		return []int{math.MinInt, math.MinInt + 1, math.MaxInt, math.MaxInt - 1, math.MinInt32, math.MaxInt32, -1 << 15, 1<<15 - 1, 1 << 15, 1 << 16, -(1 << 16), 1<<16 - 6176, 1<<16 + 6111}[ir(t, 0, 12, "extreme")]
 	case 5:
-		return rapid.IntRange(-40, 40).Draw(t, "expSmall")
+		return ir(t, -40, 40, "expSmall")
 	}
-	return rapid.IntRange(-13000, 13000).Draw(t, "expWide")
+	return ir(t, -13000, 13000, "expWide")
 }
 
 func TestC11_New(t *testing.T) {
 	runRapid(t, 150000, 5000000, func(t *rapid.T) {
 		var sig int64
-		switch rapid.IntRange(0, 5).Draw(t, "sigKind") {
+		switch ir(t, 0, 5, "sigKind") {
 		case 0:
-			sig = []int64{math.MinInt64, math.MinInt64 + 1, math.MaxInt64, math.MaxInt64 - 1, 1, -1, 5, -5, 0}[rapid.IntRange(0, 8).Draw(t, "bound")]
+			sig = []int64{math.MinInt64, math.MinInt64 + 1, math.MaxInt64, math.MaxInt64 - 1, 1, -1, 5, -5, 0}[ir(t, 0, 8, "bound")]
 		case 1:
-			sig = ref.Pow10(rapid.IntRange(0, 18).Draw(t, "p10")).Int64() * int64(rapid.IntRange(-9, 9).Draw(t, "m"))
+			sig = ref.Pow10(ir(t, 0, 18, "p10")).Int64() * int64(ir(t, -9, 9, "m"))
 		case 2:
-			sig = int64(rapid.IntRange(-1000, 1000).Draw(t, "small"))
+			sig = int64(ir(t, -1000, 1000, "small"))
 		case 3:
-			sig = genDigits(t, rapid.IntRange(1, 18).Draw(t, "len")).Int64()
+			sig = genDigits(t, ir(t, 1, 18, "len")).Int64()
 			if rapid.Bool().Draw(t, "neg") {
 				sig = -sig
 			}
 		default:
-			sig = rapid.Int64().Draw(t, "sig")
+			sig = int64(u64(t, "sig"))
 		}
 		c11new.Run(t, c11NewArgs{Sig: sig, Exp: genScaleExp(t)})
 	})
@@ -216,14 +216,14 @@ func TestC11_New(t *testing.T) {
 func TestC11_Ldexp(t *testing.T) {
 	runRapid(t, 100000, 4000000, func(t *rapid.T) {
 		var f D
-		if rapid.IntRange(0, 9).Draw(t, "fKind") == 0 {
+		if ir(t, 0, 9, "fKind") == 0 {
 			f = genAny(t)
 		} else {
 			f = genFinite(t)
 		}
 		nf := f.Num()
 		var e int
-		if nf.Class == ref.Finite && rapid.IntRange(0, 2).Draw(t, "steer") > 0 {
+		if nf.Class == ref.Finite && ir(t, 0, 2, "steer") > 0 {
 			// choose exp so that frac.exp + exp lands in an interesting window even when exp alone is out of range
 			target := genNear(t, 45, ref.Emin-35, ref.Emin, ref.Emax, ref.Emax+35, 0)
 			e = target - nf.Exp
